@@ -197,7 +197,7 @@ fn special_texts() -> Vec<&'static str> {
     vec![
         "12345678", "123456789", "-1234567", "1234567", "123456789012", "\"abc1xyz\"", "\"1230   \"", "\"abcDxyz\"", "[12345678]", "[1,2,3,4]", "-0", "1.0", "1e2", "1E+2", "0.0", "-0.0", "1.50", "18446744073709551615", "18446744073709551616",
         "-9223372036854775808", "9007199254740993", "{\"a\":1,\"a\":2}", "{\"b\":1,\"a\":{\"a\":null,\"a\":[1]}}", "\"\\u0061\"", "\"a\\nb\"", "\"\\ud83c\\udf95\"", "[1, 2]", "{\"a\" : [ 1 ,\"a\" ] }", "[\n1\n]", "{\"a\":\"\\u0001\"}", "true ", "null\n",
-        "[1.0,1,-1]", "[\"a\",\"a\",\"b\"]", "{\"a\":null,\"b\":{\"c\":null}}", "\"true\"", "\"12\"", "\"-1.5e1\"", "[[],{}]", "{}", "[]", "\"\"", "0", "[null,[null]]", "{\"\":\"\"}", "{\"é\":\"💎\"}", "[\"\\uD800\"]", "1e400", "[-1e400]", "\"a\\/b\"", "{\"a\\/\":\"<\\/script>\"}", "[\"\\u002f\",\"\\u002F\"]",
+        "[1.0,1,-1]", "[\"a\",\"a\",\"b\"]", "{\"a\":null,\"b\":{\"c\":null}}", "\"true\"", "\"12\"", "\"-1.5e1\"", "[[],{}]", "{}", "[]", "\"\"", "0", "[null,[null]]", "{\"\":\"\"}", "{\"é\":\"💎\"}", "[\"\\uD800\"]", "1e400", "[-1e400]", "9007199254740992", "18446744073709551614", "1e18", "1000000000000000000", "[0,-0]", "{\"a\":1,\"a\":2}", "\"a\\/b\"", "{\"a\\/\":\"<\\/script>\"}", "[\"\\u002f\",\"\\u002F\"]",
     ]
 }
 
